@@ -143,6 +143,21 @@ func (c *Client) Spec(context.Context, *eth2api.SpecOpts) (*eth2api.Response[map
 	for k, v := range DomainTypes {
 		m[k] = v
 	}
+	// the named forks of the spec, consistent with Chain.Forks (at most six are named; a chain with
+	// more forks than names publishes none, as a fork schedule it cannot express)
+	if names := []string{"ALTAIR", "BELLATRIX", "CAPELLA", "DENEB", "ELECTRA", "FULU"}; len(c.Chain.Forks) > 0 && len(c.Chain.Forks) <= len(names) {
+		m["GENESIS_FORK_VERSION"] = c.Chain.ForkVersion
+		last := len(c.Chain.Forks) - 1
+		for i, name := range names {
+			f := c.Chain.Forks[min(i, last)]
+			ep := uint64(f.Epoch)
+			if i > last {
+				ep = 1 << 62 // not scheduled
+			}
+			m[name+"_FORK_EPOCH"] = ep
+			m[name+"_FORK_VERSION"] = f.Version
+		}
+	}
 	return &eth2api.Response[map[string]any]{Data: m, Metadata: map[string]any{}}, nil
 }
 
